@@ -111,4 +111,82 @@ theorem chainVisits_closed (j : Nat) : chainVisits (j + 1) + 1 = 3 * 2 ^ j := by
     simp only [chainVisits, Nat.pow_succ]
     omega
 
+/-! ### the shared-child `PaintComposite` DAG -/
+
+theorem comp_resolve_inner (d i : Nat) (h : i < d) :
+    (compDag d).resolve i = some (.composite (i + 1) 0 (i + 1)) := by
+  simp [compDag, h]
+
+theorem comp_resolve_last (d : Nat) : (compDag d).resolve d = some (.leaf (some [])) := by
+  simp [compDag]
+
+/-- painting paint `i` of `compDag d` (`j = d - i` composites above the solid) succeeds and visits exactly
+`compVisits j` nodes: both children of every composite are traversed in full -/
+theorem comp_step (d : Nat) (c : Client) (j : Nat) :
+    ∀ i, i + j = d → ∀ fuel, j + 1 ≤ fuel → ∀ n, (compDag d).resolve i = some n →
+      ∀ (dec : List PaintId) (st : St),
+      (trav (compDag d) c fuel n dec st).1 = none ∧
+      (trav (compDag d) c fuel n dec st).2.visits = st.visits + compVisits j := by
+  induction j with
+  | zero =>
+    intro i hi fuel hf n hn dec st
+    obtain ⟨f, rfl⟩ : ∃ f, fuel = f + 1 := ⟨fuel - 1, by omega⟩
+    have : i = d := by omega
+    subst this
+    rw [comp_resolve_last] at hn
+    cases hn
+    simp [trav, arm, bump, emit_visits, compVisits]
+  | succ j ih =>
+    intro i hi fuel hf n hn dec st
+    obtain ⟨f, rfl⟩ : ∃ f, fuel = f + 1 := ⟨fuel - 1, by omega⟩
+    rw [comp_resolve_inner d i (by omega)] at hn
+    cases hn
+    have hres : (compDag d).resolve (i + 1) = if i + 1 < d then some (.composite (i + 1 + 1) 0 (i + 1 + 1))
+        else some (.leaf (some [])) := by
+      by_cases h : i + 1 < d
+      · simp [compDag, h]
+      · have : i + 1 = d := by omega
+        simp [compDag, this]
+    generalize hm : (if i + 1 < d then some (Node.composite (i + 1 + 1) 0 (i + 1 + 1))
+        else some (Node.leaf (some []))) = mo at hres
+    have hsome : ∃ m, mo = some m := by
+      rw [← hm]; split <;> exact ⟨_, rfl⟩
+    obtain ⟨m, rfl⟩ := hsome
+    simp only [trav, arm, hres]
+    have h1 := ih (i + 1) (by omega) f (by omega) m hres dec (emit c (.pushLayer SRC_OVER) (bump st))
+    generalize trav (compDag d) c f m dec (emit c (.pushLayer SRC_OVER) (bump st)) = r1 at h1 ⊢
+    obtain ⟨h1a, h1v⟩ := h1
+    simp only [h1a]
+    have h2 := ih (i + 1) (by omega) f (by omega) m hres dec (emit c (.pushLayer 0) r1.2)
+    generalize trav (compDag d) c f m dec (emit c (.pushLayer 0) r1.2) = r2 at h2 ⊢
+    obtain ⟨h2a, h2v⟩ := h2
+    refine ⟨h2a, ?_⟩
+    simp only [emit_visits] at h1v h2v ⊢
+    rw [h2v, h1v]
+    simp only [bump, compVisits]
+    omega
+
+/-- closed form: `compVisits j = 2^(j+1) − 1` -/
+theorem compVisits_closed (j : Nat) : compVisits j + 1 = 2 ^ (j + 1) := by
+  induction j with
+  | zero => rfl
+  | succ j ih =>
+    simp only [compVisits, Nat.pow_succ] at ih ⊢
+    omega
+
+/-- closed form of the visit bound: `(1 + k + … + k^(f-1))·(k − 1) + 1 = k^f` -/
+theorem geom_closed (k : Nat) (hk : 1 ≤ k) (f : Nat) : geom k f * (k - 1) + 1 = k ^ f := by
+  induction f with
+  | zero => simp [geom]
+  | succ f ih =>
+    obtain ⟨q, rfl⟩ : ∃ q, k = q + 1 := ⟨k - 1, by omega⟩
+    simp only [geom, Nat.add_sub_cancel, Nat.pow_succ] at ih ⊢
+    rw [← ih]
+    generalize geom (q + 1) f = G
+    have e1 : (1 + (q + 1) * G) * q = q + (q * (G * q) + G * q) := by
+      rw [Nat.add_mul, Nat.one_mul, Nat.mul_assoc, Nat.add_mul, Nat.one_mul]
+    have e2 : (G * q + 1) * (q + 1) = q * (G * q) + G * q + q + 1 := by
+      rw [Nat.add_mul, Nat.mul_add, Nat.mul_one, Nat.one_mul, Nat.mul_comm (G * q) q]; omega
+    rw [e1, e2]; omega
+
 end FontVerif.Paint
